@@ -64,7 +64,6 @@ def resText : Res → String
   | .wouldCycle => "cycle"
   | .oob => "oob"
 
-def natsText (l : List Nat) : String := ",".intercalate (l.map toString)
 
 def kindChar : Kind → String | .logic => "L" | .contains => "C" | .data => "D"
 def edgesText (l : List Edge) : String :=
@@ -161,292 +160,62 @@ def mkCfg (r : RunCfgP) (struct structRev : Dag) (incoming outgoing : List Nat) 
     incl := r.incl }
 
 structure Mon where
-  cfg : Cfg
-  rc : RunCfgP
-  s : PState                 -- future runs
-  ss : SState                -- stream runs
+  x : MonCtx
+  isStream : Bool
   active : Bool := true
-  realInvoked : List Nat := []
-  realHandout : List Nat := []
-  realEnded : List Nat := []      -- ok or err
-  realEndedOk : List Nat := []
-  realFailed : List Nat := []
-  intrAt : Option Nat := none     -- number of real invokes when the signal was sent
-  intrQuiescent : Bool := true    -- the signal was sent at a quiescent point / before the call
-  sawHandoutHook : Bool := false
-  maxInflight : Nat := 0
-  -- stream
-  yielded : List Nat := []
-  live : List Nat := []
-  droppedRefs : List Nat := []
-  wokenSincePoll : Bool := false
-  lastPending : Bool := false
-  yieldedAtIntr : Option Nat := none
-  coop : Bool := false            -- polled under tokio's cooperative budget (spurious Pending + wake possible)
-  nEv : Nat := 0                  -- events seen so far in this run
-  intrPre : Bool := false         -- the signal was already pending when the call began
+  t : TrackSt
+  p : PredSt := {}
+  st : STrackSt
+  sp : SPredSt := {}
 
-def Mon.realInflight (m : Mon) : List Nat := m.realInvoked.filter (fun f => decide (f ∉ m.realEnded))
-
-/-- run `settle1` until `p` holds of the state (or nothing is enabled / fuel ends) -/
-def advanceUntil (c : Cfg) (p : PState → Bool) : Nat → PState → PState × Bool
-  | 0, s => (s, p s)
-  | k+1, s =>
-    if p s then (s, true) else
-    match settle1 c s with
-    | none => (s, false)
-    | some (_, s') => advanceUntil c p k s'
-
-def boundOf (st : Strat) (incl : Bool) (pre : Bool) : Option Nat :=
-  match st with
-  | .finish => some (if incl && !pre then 1 else 0)
-  | .pollN 0 => some (if incl && !pre then 1 else 0)
-  | .pollN (k+1) => some (k+1)
-  | _ => none
-
-def retText (r : Ret) (control : Bool) : String :=
-  match r with
-  | .err f => s!"ret err {f}"
-  | .outcome fin p np errs =>
-    let st := if fin then "F" else "I"
-    let flow := if control then (if r.isBreak then "break" else "cont") else "na"
-    s!"ret state={st} processed={natsText p} notprocessed={natsText np} errs={natsText (errs.mergeSort (· ≤ ·))} flow={flow}"
-
-def sameMembers (a b : List Nat) : Bool := a.all (fun x => decide (x ∈ b)) && b.all (fun x => decide (x ∈ a)) && a.length == b.length
-
-/-- one event of a future-style run -/
-def monFut (id : String) (decls : List FnDecl) (userD builtD : Dag) (a : DAcc) (m : Mon) (toks : List String) :
-    DAcc × Mon :=
-  let c := m.cfg
-  let fuel := settleFuel c + 8
-  let wh := " ".intercalate toks
+def parseEv (toks : List String) : Ev × List Note :=
   match toks with
-  | ["ev", _, "intr"] =>
-    let s' := (step? c m.s .interrupt).getD m.s
-    (a, { m with s := s', intrAt := match m.intrAt with | none => some m.realInvoked.length | x => x,
-                 intrPre := if m.intrAt.isNone then m.nEv == 0 else m.intrPre })
-  | ["ev", _, "handout", f] =>
-    let f := f.toNat?.getD 0
-    let before := m.s.handedOut.length
-    -- Under tokio's cooperative budget a done notification (`fn_done_send*().await`) can be deferred
-    -- behind that of a function that completed later, so the ready queue order is the order of the
-    -- SENDS, which the harness cannot see.  In coop sessions the monitor therefore follows the real
-    -- hand-out order among the functions that are ready in the model (same set, any order); the FIFO
-    -- order itself is pinned by the non-coop sessions.
-    let s0 := if m.coop then
-        let (sq, _) := advanceUntil c (fun s => s.doneQ.isEmpty || s.qDone) fuel m.s
-        if f ∈ sq.readyQ then { sq with readyQ := f :: sq.readyQ.erase f } else sq
-      else m.s
-    let (s', ok) := advanceUntil c (fun s => decide (before < s.handedOut.length)) fuel s0
-    let got := if ok then natsText (s'.handedOut.drop before) else "none-enabled"
-    let a := a.cmp id "R-step" wh got (toString f)
-    -- C03 (real): no second hand-out; C10 (real)
-    let a := a.prop id "C03" wh (decide (f ∉ m.realHandout))
-    (a, { m with s := s', realHandout := m.realHandout ++ [f], sawHandoutHook := true })
-  | ["ev", _, "invoke", f] =>
-    let f := f.toNat?.getD 0
-    -- model side
-    let (s', ok) :=
-      if f ∈ m.s.inflight ∧ f ∉ m.s.invoked then ((step? c m.s (.invoke f)).getD m.s, true)
-      else if f ∈ m.s.invoked ∧ (m.realInvoked.count f < m.s.invoked.count f) then (m.s, true)
-      else advanceUntil c (fun s => decide (f ∈ s.invoked)) fuel m.s
-    let a := a.cmp id "R-step" wh (if ok then "enabled" else "not-enabled") "enabled"
-    -- real-trace predicates
-    let infl := m.realInflight
-    let a := a.prop id "C03" wh (decide (f ∉ m.realInvoked))
-    let a := a.prop id "C01" wh (!conflictInflightB decls infl f)
-    -- C02: every ancestor through user edges (forward) / descendant (reverse) has returned ok
-    let U := if m.rc.rev then userD.flip else userD
-    let a := a.prop id "C02" wh ((List.range U.n).all (fun u => !reachPlus U u f || decide (u ∈ m.realEndedOk)))
-    -- C01/C02 on the built graph as well (data edges): predecessors in the scheduling graph ended
-    let a := a.prop id "C01" (wh ++ " (built-graph predecessors)") ((parents c.D f).all (fun p => decide (p ∈ m.realEndedOk)))
-    -- C07: nothing ordered after a failed function starts
-    let a := a.prop id "C07" wh (m.realFailed.all (fun x => !reachPlus c.D x f))
-    -- C10
-    let nInfl := infl.length + 1
-    let lim : Option Nat := if c.sequential then some 1 else match c.limit with | some 0 => none | l => l
-    let a := a.prop id "C10" wh (match lim with | some l => decide (nInfl ≤ l) | none => true)
-    -- C08: bound on starts after the signal (signals sent at quiescent points or before the call)
-    let a := match m.intrAt, boundOf c.strat c.incl m.intrPre with
-      | some k, some b =>
-        if m.intrQuiescent then a.prop id "C08" wh (decide (m.realInvoked.length + 1 - k ≤ b)) else a
-      | _, _ => a
-    (a, { m with s := s', realInvoked := m.realInvoked ++ [f], maxInflight := max m.maxInflight nInfl })
-  | ["ev", _, "end", f, res] =>
-    let f := f.toNat?.getD 0
-    let ok := res == "ok"
-    let (s0, _) := if f ∈ m.s.invoked then (m.s, true) else advanceUntil c (fun s => decide (f ∈ s.invoked)) fuel m.s
-    let (s', en) := match step? c s0 (.finish f ok) with
-      | some s' => (s', true)
-      | none => (s0, false)
-    let a := a.cmp id "R-step" wh (if en then "enabled" else "not-enabled") "enabled"
-    (a, { m with s := s', realEnded := m.realEnded ++ [f],
-                 realEndedOk := if ok then m.realEndedOk ++ [f] else m.realEndedOk,
-                 realFailed := if ok then m.realFailed else m.realFailed ++ [f] })
-  | ["ev", _, "q"] =>
-    let s' := settle c m.s
-    let a := a.cmp id "R-quiesce" (wh ++ " returned") (toString s'.result.isSome) "false"
-    let a := a.cmp id "R-quiesce" (wh ++ " invoked") (natsText s'.invoked) (natsText m.realInvoked)
-    let a := if m.sawHandoutHook || m.realInvoked.isEmpty then
-        a.cmp id "R-quiesce" (wh ++ " handedOut") (natsText s'.handedOut) (natsText m.realHandout) else a
-    let a := a.cmp id "R-quiesce" (wh ++ " panic") (toString s'.panic) "false"
-    -- C04 (real): pending, no wake-up, nothing in flight = deadlock
-    let dead := m.realInflight.isEmpty
-    let a := a.prop id "C04" wh (!dead)
-    -- the same observation read against the clauses of other properties that promise a return:
-    -- C03 "every function has been handed out … when the call returns" (clean run that can never return),
-    -- C07 "the call returns Err/Break", C08 "… and the call returns", C10 "any limit >= 1 still lets
-    -- every graph run to completion"
-    let cleanRun := m.intrAt.isNone && m.realFailed.isEmpty
-    let a := if cleanRun then a.prop id "C03" (wh ++ " clean run can never hand out the rest") (!dead) else a
-    let a := if !m.realFailed.isEmpty then a.prop id "C07" (wh ++ " never returns after a failure") (!dead) else a
-    let a := if m.intrAt.isSome then a.prop id "C08" (wh ++ " never returns after the interrupt") (!dead) else a
-    let a := match c.limit with
-      | some (l+1) => if m.intrAt.isNone && !c.sequential then a.prop id "C10" (wh ++ s!" limit {l+1} blocks completion") (!dead) else a
-      | _ => a
-    -- C06 (real): no limit / interrupt / failure: every function whose built-graph predecessors
-    -- have all returned has been started
-    let clean := m.intrAt.isNone && m.realFailed.isEmpty &&
-      (c.sequential == false) && (match c.limit with | none => true | some 0 => true | _ => false)
-    let a := if clean then
-        a.prop id "C06" wh ((List.range c.n).all (fun v =>
-          !((parents c.D v).all (fun p => decide (p ∈ m.realEndedOk))) || decide (v ∈ m.realInvoked)))
-      else a
-    (a, { m with s := s' })
+  | ["ev", _, "intr"] => (.intr, [])
+  | ["ev", _, "handout", f] => (.handout (f.toNat?.getD 0), [])
+  | ["ev", _, "invoke", f] => (.invoke (f.toNat?.getD 0), [])
+  | ["ev", _, "end", f, r] => (.fin (f.toNat?.getD 0) (r == "ok"), [])
+  | ["ev", _, "q"] => (.q, [])
+  | ["ev", _, "ret", "err", f] => (.retErr (f.toNat?.getD 0), [])
   | "ev" :: _ :: "ret" :: rest =>
-    let s' := settle c m.s
-    let control := hasSub m.rc.api "_control"
-    -- errors come out of a channel in the order the failing futures got to send them, which under a
-    -- cooperative budget need not be the order in which they completed: compare as sorted lists
-    let rest := rest.map (fun t => if t.startsWith "errs=" then "errs=" ++ natsText ((csvNat (t.drop 5).toString).mergeSort (· ≤ ·)) else t)
-    let implText := " ".intercalate ("ret" :: rest)
-    let modelText := match s'.result with | some r => retText r control | none => "not-returned"
-    -- `NotStarted` never escapes: the state is recomputed after the stream; treat N as reported
-    let a := a.cmp id "R-outcome" wh modelText implText
-    -- real-trace predicates
-    let a := a.prop id "C04" (wh ++ " inflight-at-return") m.realInflight.isEmpty
-    let a := match rest with
-      | ["err", f] =>
-        let f := f.toNat?.getD 0
-        -- C07: try_fold returns the first error and invokes nothing after it
-        a.prop id "C07" wh (m.realFailed == [f] && m.realInvoked.getLast? == some f)
-      | _ =>
-        let proc := kvCsv rest "processed"
-        let notp := kvCsv rest "notprocessed"
-        let errs := kvCsv rest "errs"
-        let st := (kv rest "state").getD "?"
-        let flow := (kv rest "flow").getD "na"
-        let a := a.prop id "C09" (wh ++ " processed=started") (proc == m.realInvoked)
-        let a := a.prop id "C09" (wh ++ " notprocessed") (notp == (List.range c.n).filter (fun v => decide (v ∉ proc)))
-        let a := a.prop id "C09" (wh ++ " state") ((st == "F") == (proc.length == c.n))
-        let a := a.prop id "C09" (wh ++ " flow") (flow == "na" || ((flow == "cont") == (st == "F" && errs.isEmpty)))
-        let a := a.prop id "C07" (wh ++ " errors") (sameMembers errs m.realFailed)
-        let a := a.prop id "C08" (wh ++ " started-all-reported") (m.realInvoked.all (fun f => decide (f ∈ proc)))
-        -- C03: clean run hands out everything exactly once
-        let a := if m.intrAt.isNone && m.realFailed.isEmpty then
-            a.prop id "C03" (wh ++ " clean-all") (isPermOfRange m.realInvoked c.n) else a
-        -- C08: NonInterruptible / IgnoreInterruptions: a signal changes nothing
-        let a := match c.strat with
-          | .non | .ignore => if m.realFailed.isEmpty then a.prop id "C08" (wh ++ " noop") (isPermOfRange m.realInvoked c.n) else a
-          | _ => a
-        a
-    let _ := builtD
-    (a, { m with s := s', active := false })
-  | "ev" :: _ :: "panic" :: _ =>
-    let a := a.cmp id "R-quiesce" wh "no-panic" "panic"
-    let a := a.prop id "C04" wh false
-    (a, { m with active := false })
-  | ["ev", _, "aborted"] => (a, { m with active := false })
-  | ["ev", _, "livelock"] => ((a.prop id "C04" wh false), { m with active := false })
-  | _ => (a, m)
+    let st := (kv rest "state").getD "?"
+    -- `StreamOutcomeState::NotStarted` must never escape (C09: Finished iff all processed, Interrupted otherwise)
+    let notes := if st == "F" || st == "I" then [] else
+      [Note.prop "C09" ("ret state=" ++ st) false, Note.cmp "R-outcome" ("ret state=" ++ st) "F|I" st]
+    (.retOutcome (st == "F") (kvCsv rest "processed") (kvCsv rest "notprocessed") (kvCsv rest "errs") ((kv rest "flow").getD "na"), notes)
+  | "ev" :: _ :: "panic" :: _ => (.panic, [])
+  | ["ev", _, "aborted"] => (.aborted, [])
+  | ["ev", _, "livelock"] => (.livelock, [])
+  | ["ev", _, "poll", "some", f] => (.poll (.some (f.toNat?.getD 0)), [])
+  | ["ev", _, "poll", "isome", f] => (.poll (.isome (f.toNat?.getD 0)), [])
+  | ["ev", _, "poll", "inone"] => (.poll .inone, [])
+  | ["ev", _, "poll", "none"] => (.poll .none, [])
+  | ["ev", _, "poll", "pending", w] => (.poll (.pending (w == "woken=1")), [])
+  | ["ev", _, "poll", "panic"] => (.poll .panic, [])
+  | ["ev", _, "drop", f, w] => (.drop (f.toNat?.getD 0) (w == "woken=1"), [])
+  | _ => (.other, [])
 
-/-- one event of a stream run -/
-def monStream (id : String) (decls : List FnDecl) (userD : Dag) (a : DAcc) (m : Mon) (toks : List String) :
-    DAcc × Mon :=
-  let c := m.cfg
-  let wh := " ".intercalate toks
-  let interruptible := hasSub m.rc.api "interruptible"
-  match toks with
-  | ["ev", _, "intr"] =>
-    ((a), { m with ss := { m.ss with im := { m.ss.im with sent := true } },
-                   yieldedAtIntr := match m.yieldedAtIntr with | none => some m.yielded.length | x => x,
-                   intrPre := if m.yieldedAtIntr.isNone then m.nEv == 0 else m.intrPre })
-  | "ev" :: _ :: "poll" :: rest =>
-    let (ss', out, fo) := sipoll c true m.ss
-    let modelText := match out, fo with
-      | .noInt, some f => s!"some {f}"
-      | .intSome, some f => s!"isome {f}"
-      | .intNone, _ => "inone"
-      | .endd, _ => "none"
-      | .pending, _ => s!"pending woken={if ss'.wake then 1 else 0}"
-      | _, _ => "?"
-    let implText := " ".intercalate rest
-    -- under tokio's cooperative budget a poll may answer `Pending` after scheduling a wake-up of the
-    -- task although work remains (budget exhausted): allowed by C05 ("or a wake-up has been
-    -- signalled"); the model has no budget, so such a poll is not a model poll
-    if m.coop && implText == "pending woken=1" && modelText != implText then
-      (a, { m with lastPending := true, wokenSincePoll := true })
-    else
-    let a := a.cmp id "S-poll" wh modelText implText
-    let a := a.cmp id "S-poll" (wh ++ " panic") (toString ss'.panic) "false"
-    -- real-trace predicates
-    let (a, m) := match rest with
-      | [k, f] =>
-        if k == "some" || k == "isome" then
-          let f := f.toNat?.getD 0
-          let a := a.prop id "C03" wh (decide (f ∉ m.yielded))
-          let a := a.prop id "C01" wh (!conflictInflightB decls m.live f)
-          let U := if m.rc.rev then userD.flip else userD
-          let a := a.prop id "C02" wh ((List.range U.n).all (fun u => !reachPlus U u f || decide (u ∈ m.droppedRefs)))
-          let a := a.prop id "C01" (wh ++ " (built-graph predecessors)") ((parents c.D f).all (fun p => decide (p ∈ m.droppedRefs)))
-          let a := a.prop id "C05" (wh ++ " not-after-end") (decide (m.yielded.length < c.n))
-          let a := match m.yieldedAtIntr, boundOf c.strat true m.intrPre with
-            | some k0, some b => if interruptible then a.prop id "C08" wh (decide (m.yielded.length + 1 - k0 ≤ b)) else a
-            | _, _ => a
-          (a, { m with yielded := m.yielded ++ [f], live := m.live ++ [f], lastPending := false, wokenSincePoll := false })
-        else if k == "pending" then
-          let woken := f == "woken=1"
-          -- C05: pending without wake-up ⇒ every unyielded function still has an undropped predecessor
-          let a := if woken then a else
-            a.prop id "C05" wh ((List.range c.n).all (fun v =>
-              decide (v ∈ m.yielded) || (parents c.D v).any (fun p => decide (p ∉ m.droppedRefs))))
-          -- C03 (stream form): a clean stream that is parked for good never yields the rest
-          let a := if woken || m.yieldedAtIntr.isSome then a else
-            a.prop id "C03" (wh ++ " clean stream can never yield the rest") ((List.range c.n).all (fun v =>
-              decide (v ∈ m.yielded) || (parents c.D v).any (fun p => decide (p ∉ m.droppedRefs))))
-          -- C06 (stream form): same statement, counted under C06 as well
-          let a := if woken || interruptible then a else
-            a.prop id "C06" wh ((List.range c.n).all (fun v =>
-              decide (v ∈ m.yielded) || (parents c.D v).any (fun p => decide (p ∉ m.droppedRefs))))
-          (a, { m with lastPending := true, wokenSincePoll := woken })
-        else (a, m)
-      | ["none"] =>
-        -- plain streams end exactly after all functions were yielded
-        let a := if interruptible && m.yieldedAtIntr.isSome then a else
-          a.prop id "C05" (wh ++ " none-iff-all") (m.yielded.length == c.n)
-        (a, { m with lastPending := false })
-      | ["inone"] => (a, { m with lastPending := false })
-      | ["panic"] => (a.prop id "C05" wh false, { m with active := false })
-      | _ => (a, m)
-    (a, { m with ss := ss' })
-  | ["ev", _, "drop", f, w] =>
-    let f := f.toNat?.getD 0
-    let expect := m.ss.doneRxWaker && !m.ss.streamDropped && decide (m.ss.doneQ.length < c.cap)
-    let ss' := (sdrop c m.ss f).getD m.ss
-    let a := a.cmp id "S-poll" wh s!"woken={if expect then 1 else 0}" w
-    let woken := w == "woken=1"
-    let m := { m with ss := ss', live := m.live.erase f, droppedRefs := m.droppedRefs ++ [f],
-                      wokenSincePoll := m.wokenSincePoll || woken }
-    -- C05: after a Pending poll, as soon as some unyielded function has all predecessors dropped a
-    -- wake-up must have been signalled
-    let a := if m.lastPending && !m.ss.streamDropped then
-        a.prop id "C05" (wh ++ " wake-after-drop") (m.wokenSincePoll ||
-          (List.range c.n).all (fun v => decide (v ∈ m.yielded) || (parents c.D v).any (fun p => decide (p ∉ m.droppedRefs))))
-      else a
-    (a, m)
-  | "ev" :: _ :: "panic" :: _ => (a.prop id "C05" wh false, { m with active := false })
-  | ["ev", _, "aborted"] => (a, { m with ss := sdropStream m.ss })
-  | _ => (a, m)
+def applyNotes (id pre : String) (a : DAcc) (ns : List Note) : DAcc :=
+  ns.foldl (fun a n => match n with
+    | .cmp facet what model impl => a.cmp id facet (pre ++ what) model impl
+    | .prop p what holds => a.prop id p (pre ++ what) holds) a
+
+/-- one observed event: model-tracking monitor + specification predicates -/
+def monEvent (id : String) (a : DAcc) (m : Mon) (toks : List String) : DAcc × Mon :=
+  let (e, pn) := parseEv toks
+  let pre := "ev " ++ (toks[1]?.getD "0") ++ " "
+  let a := applyNotes id pre a pn
+  if m.isStream then
+    let by_ := match e with | .poll r => isBudgetYield m.x m.st r | _ => false
+    let (st', n1) := trackStream m.x m.st e
+    let (sp', n2) := predStream m.x by_ m.sp e
+    let dead := match e with | .poll .panic => true | .panic => true | _ => false
+    (applyNotes id pre (applyNotes id pre a n1) n2, { m with st := st', sp := sp', active := m.active && !dead })
+  else
+    let (t', n1) := trackFut m.x m.t e
+    let (p', n2) := predFut m.x m.p e
+    let fin := match e with
+      | .retOutcome .. => true | .retErr _ => true | .panic => true | .aborted => true | .livelock => true | _ => false
+    (applyNotes id pre (applyNotes id pre a n1) n2, { m with t := t', p := p', active := m.active && !fin })
 
 /-! ### one case -/
 
@@ -680,25 +449,24 @@ def checkCase (lines : Array String) : Array String := Id.run do
             started := true
             mons := runCfgs.map (fun rc =>
               let c := mkCfg rc ⟨bo.n, bo.struct⟩ ⟨bo.n, bo.structRev⟩ bo.incoming bo.outgoing
-              { cfg := c, rc := rc, s := init c, ss := sinit c, coop := sessCoop })
+              { x := { c := c, decls := decls, userD := ⟨decls.length, userE⟩, rev := rc.rev,
+                       control := hasSub rc.api "_control", interruptible := hasSub rc.api "interruptible",
+                       coop := sessCoop },
+                isStream := rc.isStream, t := { s := init c }, st := { ss := sinit c } })
           let ri := r.toNat?.getD 0
           nEvents := nEvents + 1
           match mons[ri]? with
           | none => pure ()
           | some m =>
             if m.active then
-              let userD : Dag := ⟨decls.length, userE⟩
-              let builtD : Dag := ⟨bo.n, bo.edges⟩
-              -- a signal sent while the call is being polled (from inside a gate) is not at a quiescent point
-              let (a', m') := if m.rc.isStream then monStream id decls userD a m t
-                              else monFut id decls userD builtD a m t
+              let (a', m') := monEvent id a m t
               a := a'
-              mons := mons.set! ri { m' with nEv := m'.nEv + 1 }
+              mons := mons.set! ri m'
     | "do" :: acts =>
       -- a mid-poll signal (`open:…:intr`) is not at a quiescent point: C08's start bound is then
       -- stated for hand-outs (hook events), not closure invocations (DESIGN 7.4)
       if acts.any (fun x => x.endsWith ":intr") then
-        mons := mons.map (fun m => { m with intrQuiescent := false })
+        mons := mons.map (fun m => { m with p := { m.p with intrQuiescent := false } })
     | _ => pure ()
   let _ := builtPanic
   let facets := " ".intercalate (a.facets.map (fun p => s!"{p.1}={p.2}"))
